@@ -91,6 +91,10 @@ type iteration struct {
 	fieldMappings   map[int]int
 	offsetsCh       chan common.OffsetsBySource
 	errCh           chan error
+	// finished is set once this iteration no longer takes part in a coalesced
+	// scan, err holds the error (if any) that made it drop out
+	finished bool
+	err      error
 }
 
 // CreateTable creates a table based on the given opts.
@@ -451,10 +455,13 @@ func (db *DB) doProcessIterations(iterations []*iteration) {
 		return false
 	}
 
+	allHaveDeadline := true
 	for _, it := range iterations {
 		includeMemStore = includeMemStore || it.includeMemStore
 		deadline, hasDeadline := it.ctx.Deadline()
-		if hasDeadline && deadline.After(maxDeadline) {
+		if !hasDeadline {
+			allHaveDeadline = false
+		} else if deadline.After(maxDeadline) {
 			maxDeadline = deadline
 		}
 		// default outFields to table fields
@@ -494,11 +501,15 @@ func (db *DB) doProcessIterations(iterations []*iteration) {
 			}
 			itMore, err := it.onValue(dims, itVals)
 			if err != nil {
+				// Only this iteration failed (e.g. its own deadline expired), the
+				// others keep scanning
 				it.t.log.Errorf("Error while iterating: %v", err)
-				return false, err
-			}
-			if !itMore {
+				it.err = err
+				it.finished = true
+				delete(remainingIterations, i)
+			} else if !itMore {
 				// This iteration doesn't want any more data, stop feeding it
+				it.finished = true
 				delete(remainingIterations, i)
 			} else {
 				more = true
@@ -508,7 +519,8 @@ func (db *DB) doProcessIterations(iterations []*iteration) {
 	}
 
 	newCtx := context.Background()
-	if !maxDeadline.IsZero() {
+	if allHaveDeadline && !maxDeadline.IsZero() {
+		// the shared scan may stop once every iteration's deadline has passed
 		var cancel context.CancelFunc
 		newCtx, cancel = context.WithDeadline(newCtx, maxDeadline)
 		defer cancel()
@@ -519,7 +531,12 @@ func (db *DB) doProcessIterations(iterations []*iteration) {
 	}
 	for _, it := range iterations {
 		it.offsetsCh <- offsetsBySource
-		it.errCh <- err
+		if it.finished {
+			// dropped out before the scan ended, the scan's error isn't its error
+			it.errCh <- it.err
+		} else {
+			it.errCh <- err
+		}
 	}
 }
 
